@@ -160,7 +160,10 @@ func judgeC04Comp(c C04CompCase) *Fail {
 func genC04Comp(t *rapid.T) C04CompCase {
 	g := G{t}
 	n := g.Int(1, 10)
-	p := g.Perm(12)
+	if g.Chance(1, 3) {
+		n = g.Int(11, 40) // beyond the sizes where Go's sort happens to be stable
+	}
+	p := g.Perm(44)
 	var c C04CompCase
 	mode := g.Int(0, 4)
 	base := []float64{}
@@ -282,6 +285,9 @@ func judgeC04Api(c C04ApiCase) *Fail {
 func genC04Api(t *rapid.T) C04ApiCase {
 	g := G{t}
 	o := GenOpts{Methods: utilityMethods, MaxBiases: 1, ValueMode: -1, TieHeavy: g.Chance(3, 4), MinAlts: 2}
+	if g.Chance(1, 6) {
+		o.MinAlts, o.MaxAlts = 12, 30 // many alternatives with ties
+	}
 	// biases whose random draws do not depend on the listing order of alternatives
 	o.Biases = []string{"criteriaOmission", "preferenceReversal"}
 	if g.Chance(2, 3) {
